@@ -25,6 +25,9 @@ type NDOp struct {
 	Typ  string `json:"typ"`  // bytes | string | struct | map | int
 	// ErrReply (call, callimportant): the receiver answers with SendResponseError and an error of its own
 	ErrReply bool `json:"err_reply,omitempty"`
+	// PauseNs: the sender lets this much simulated time pass before the operation (values around
+	// the 300 ns flush latency of the link writer make a timer flush coincide with the write)
+	PauseNs int `json:"pause_ns,omitempty"`
 }
 
 type NDSender struct {
@@ -176,6 +179,9 @@ func genNDCase(r *simkit.Rand, tier string, fifo bool) *NDCase {
 				if r.Chance(0.3) {
 					// the same priority class through the other API: the order within the stream is the same promise
 					op.Kind = "sendprio"
+				}
+				if r.Chance(0.25) {
+					op.PauseNs = simkit.Pick(r, 300, 300, 299, 301, 3000)
 				}
 			} else {
 				op.Kind = simkit.Pick(r, "send", "send", "important", "important", "call", "callimportant")
@@ -473,6 +479,9 @@ func runDelivery(prop string, e *simkit.Env, c *NDCase) *ndRun {
 					to = r.ralias[op.To]
 				default:
 					to = r.rpid[op.To]
+				}
+				if op.PauseNs > 0 {
+					e.Sleep(time.Duration(op.PauseNs))
 				}
 				msg := ndMsg{ID: id, Data: ndPayload(id, op.Typ, op.Size)}
 				rec := ndSent{sender: si, seq: j, id: id, op: op, step: e.Step()}
